@@ -63,7 +63,7 @@ CLAIMED = {
         'proved. Two defects found and fixed.',
    note='Trusted: Coq kernel+VM; translate/cexpr.py; cshim (miniglib headers, GLib 2.74 runtime); libffi; gcc as the '
         'ABI oracle; only acyclic declarations; unknown-size members cannot be produced through g-ir-compiler (its '
-        'warning is fatal), so that clause is tied by reading only; callbacks in unions excluded (finding F14).',
+        'warning is fatal), so that clause is tied by reading only; callbacks in unions excluded (known finding C15-K1); declarations of 2**31 bytes and more are judged against gcc only (known finding C08-K1: wrapped size).',
    ref='DESIGN.md §4 C08'),
  'C17': dict(
    technique='Coq proof (invariant by induction over fuel and over operation histories) over a model of girepository.c require/election + correspondence against the real repository code on generated directory trees and histories',
